@@ -9,34 +9,13 @@ From MV Require Import Base.PyStr Base.Res Refs.RUtil Gen.Transforms.
 Import ListNotations.
 Open Scope N_scope.
 
-(* ---- input: the footnote material of a document, in document order ---- *)
-Inductive inner : Type :=
-| IRefs (ls : list str)                            (* a block inside a container, with these [^l] references *)
-| IDef (l : str) (body : N) (brefs : list str).    (* [^l]: body   (body = opaque text id; brefs = references inside it) *)
+(* ---- input: the footnote material of a document, in document order, at any nesting depth ---- *)
+Inductive blk : Type :=
+| BRefs (ls : list str)                          (* a non-footnote block holding these [^l] references (possibly none) *)
+| BDef (l : str) (body : N) (brefs : list str)   (* [^l]: body  (body = opaque text id; brefs = references inside it) *)
+| BBox (items : list blk).                       (* block quote / list item / definition / section ... holding blocks *)
 
-Inductive top : Type :=
-| TRefs (ls : list str)                            (* a top-level non-footnote block with these references *)
-| TDef (l : str) (body : N) (brefs : list str)     (* a top-level definition *)
-| TBox (items : list inner).                       (* block quote / list / directive holding references and definitions *)
-
-Definition doc := list top.
-
-Inductive ev : Type := ERef (l : str) | EDef (l : str) (body : N).
-
-Definition inner_events (i : inner) : list ev :=
-  match i with
-  | IRefs ls => map ERef ls
-  | IDef l b rs => EDef l b :: map ERef rs     (* note_* is called before the children are rendered *)
-  end.
-
-Definition top_events (t : top) : list ev :=
-  match t with
-  | TRefs ls => map ERef ls
-  | TDef l b rs => EDef l b :: map ERef rs
-  | TBox its => flat_map inner_events its
-  end.
-
-Definition events (d : doc) : list ev := flat_map top_events d.
+Definition doc := list blk.      (* the children of the document *)
 
 (* ---- registries ---- *)
 Record fn := { f_label : str; f_auto : bool; f_body : N }.      (* nodes.footnote; identity = its label *)
@@ -69,8 +48,7 @@ Definition refs_of (frefs : list (str * list rf)) (l : str) : list rf :=
   match dget frefs l with Some rs => rs | None => [] end.
 
 (* layout: what becomes of each block, as far as footnotes are concerned *)
-Inductive lin : Type := LIOther | LIMsg | LIFoot (l : str).
-Inductive ltop : Type := LOther | LMsg | LFoot (l : str) | LBox (its : list lin) | LTrans.
+Inductive ltop : Type := LOther | LMsg | LFoot (l : str) | LBox (its : list ltop) | LTrans.
 
 (* output *)
 Record fout := { fo_fn : fn; fo_display : str; fo_num : option N; fo_backrefs : list nat }.
@@ -117,48 +95,47 @@ Section Foot.
 
   Definition render_refs (g : regs) (ls : list str) : regs := fold_left render_footnote_ref ls g.
 
-  Definition render_inner (g : regs) (i : inner) : regs * lin :=
-    match i with
-    | IRefs ls => (render_refs g ls, LIOther)
-    | IDef l b rs =>
-        let '(g1, kept) := render_footnote_reference g l b in
-        if kept then (render_refs g1 rs, LIFoot l) else (g1, LIMsg)   (* a dropped definition is not rendered *)
-    end.
-
-  Fixpoint render_inners (g : regs) (its : list inner) : regs * list lin :=
-    match its with
-    | [] => (g, [])
-    | i :: its' =>
-        let '(g1, n) := render_inner g i in
-        let '(g2, ns) := render_inners g1 its' in (g2, n :: ns)
-    end.
-
-  Definition render_top (g : regs) (t : top) : regs * ltop :=
-    match t with
-    | TRefs ls => (render_refs g ls, LOther)
-    | TDef l b rs =>
-        let '(g1, kept) := render_footnote_reference g l b in
-        if kept then (render_refs g1 rs, LFoot l) else (g1, LMsg)
-    | TBox its => let '(g1, ns) := render_inners g its in (g1, LBox ns)
+  (* one block and, for a container, its blocks in order (the renderer's recursive walk) *)
+  Fixpoint render_blk (g : regs) (b : blk) : regs * ltop :=
+    match b with
+    | BRefs ls => (render_refs g ls, LOther)
+    | BDef l body rs =>
+        let '(g1, kept) := render_footnote_reference g l body in
+        if kept then (render_refs g1 rs, LFoot l) else (g1, LMsg)   (* a dropped definition is not rendered *)
+    | BBox its =>
+        let '(g1, ns) :=
+          (fix go (g : regs) (its : list blk) : regs * list ltop :=
+             match its with
+             | [] => (g, [])
+             | i :: its' =>
+                 let '(g1, n) := render_blk g i in
+                 let '(g2, ns) := go g1 its' in (g2, n :: ns)
+             end) g its in
+        (g1, LBox ns)
     end.
 
   Fixpoint render_doc (g : regs) (d : doc) : regs * list ltop :=
     match d with
     | [] => (g, [])
     | t :: d' =>
-        let '(g1, n) := render_top g t in
+        let '(g1, n) := render_blk g t in
         let '(g2, ns) := render_doc g1 d' in (g2, n :: ns)
     end.
 
   (* ---- transforms.py: SortFootnotes ---- *)
-  Definition sort_key (ref_order : list str) (f : fn) : nat :=
-    match index_of (f_label f) ref_order with Some i => i | None => 999%nat end.
+  (* _sort_key: position of the label's first reference; a footnote nobody references sorts after
+     every referenced one: len(ref_order)  ([legacy999] = the code before the fix: commit: 999) *)
+  Definition sort_key (legacy999 : bool) (ref_order : list str) (f : fn) : nat :=
+    match index_of (f_label f) ref_order with
+    | Some i => i
+    | None => if legacy999 then 999%nat else length ref_order
+    end.
 
-  Definition sort_footnotes (footnote_sort : bool) (g : regs) : regs :=
+  Definition sort_footnotes (legacy999 footnote_sort : bool) (g : regs) : regs :=
     if negb footnote_sort then g else
     let ref_order := map r_label (g_autofootnote_refs g) in
     {| g_nameids := g_nameids g;
-       g_autofootnotes := isort (sort_key ref_order) Nat.leb (g_autofootnotes g);
+       g_autofootnotes := isort (sort_key legacy999 ref_order) Nat.leb (g_autofootnotes g);
        g_footnotes := g_footnotes g; g_autofootnote_refs := g_autofootnote_refs g;
        g_footnote_refs := g_footnote_refs g; g_allrefs := g_allrefs g; g_nrefs := g_nrefs g;
        g_warn := g_warn g |}.
@@ -251,13 +228,12 @@ Section Foot.
     end.
 
   Definition is_foot (n : ltop) : bool := match n with LFoot _ => true | _ => false end.
-  Definition is_ifoot (n : lin) : bool := match n with LIFoot _ => true | _ => false end.
 
   (* footnote.parent.remove(footnote) for every registered footnote *)
-  Definition strip_top (n : ltop) : list ltop :=
+  Fixpoint strip_top (n : ltop) : list ltop :=
     match n with
     | LFoot _ => []
-    | LBox its => [LBox (filter (fun i => negb (is_ifoot i)) its)]
+    | LBox its => [LBox (flat_map strip_top its)]     (* from any depth *)
     | other => [other]
     end.
 
@@ -283,10 +259,10 @@ Section Foot.
   Definition pipeline : list xform :=
     isort priority Z.leb (XFootnotes :: docutils_parser_transforms).
 
-  Definition apply_xform (footnote_sort footnote_transition : bool) (x : xform) (s : fstate) : res fstate :=
+  Definition apply_xform (legacy999 footnote_sort footnote_transition : bool) (x : xform) (s : fstate) : res fstate :=
     match x with
     | XSortFootnotes =>
-        Ok {| s_regs := sort_footnotes footnote_sort (s_regs s); s_manual := s_manual s; s_auto := s_auto s;
+        Ok {| s_regs := sort_footnotes legacy999 footnote_sort (s_regs s); s_manual := s_manual s; s_auto := s_auto s;
               s_layout := s_layout s; s_warn := s_warn s |}
     | XFootnotes => footnotes_xform s
     | XUnreferencedFootnotesDetector => Ok (unreferenced s)
@@ -294,19 +270,20 @@ Section Foot.
     | XResolveAnchorIds => Ok s
     end.
 
-  Fixpoint apply_all (fs ft : bool) (xs : list xform) (s : fstate) : res fstate :=
+  Fixpoint apply_all (lg fs ft : bool) (xs : list xform) (s : fstate) : res fstate :=
     match xs with
     | [] => Ok s
-    | x :: xs' => do s' <- apply_xform fs ft x s; apply_all fs ft xs' s'
+    | x :: xs' => do s' <- apply_xform lg fs ft x s; apply_all lg fs ft xs' s'
     end.
 
-  Definition run_with (xs : list xform) (footnote_sort footnote_transition : bool) (d : doc) : res result :=
+  Definition run_with (legacy999 : bool) (xs : list xform) (footnote_sort footnote_transition : bool) (d : doc) : res result :=
     let '(g, layout) := render_doc regs0 d in
     let s0 := {| s_regs := g; s_manual := []; s_auto := []; s_layout := layout; s_warn := g_warn g |} in
-    do s <- apply_all footnote_sort footnote_transition xs s0;
+    do s <- apply_all legacy999 footnote_sort footnote_transition xs s0;
     let foots := s_manual s ++ s_auto s in
     Ok {| x_refs := map (ref_out foots) (g_allrefs (s_regs s)); x_foots := foots;
           x_layout := s_layout s; x_warn := s_warn s |}.
 
-  Definition run := run_with pipeline.
+  Definition run := run_with false pipeline.
+  Definition run_legacy := run_with true pipeline.     (* SortFootnotes as it was: default key 999 *)
 End Foot.
